@@ -3,6 +3,6 @@ CONSTANTS
   Variant = "fixed"
   Tokens = {"~", "/", ".", "a", "$", "{", "}", "e2", "W"}
   MaxLen = 5
-  LongHeads = {"~", "$", "{", "."}
+  LongHeads = {"~"}
   EmitCases = TRUE
 INVARIANTS NoCrash Absolute Idempotent StepsAgree Emit
